@@ -27,6 +27,9 @@ type Event struct {
 	Must   bool // executed on every successful run of the entry
 	InLoop bool
 	Prefix []string
+	// Note: a remark of the event builder for the closed-world rules ("double-prefix": the
+	// key handed to a prefix store already starts with that store's prefix)
+	Note string
 }
 
 func (e *Event) Pos(cx *Ctx) string { return cx.P.Pos(e.Site.Pos()) }
@@ -2136,6 +2139,38 @@ func (w *Walker) absoluteStoreKey(ev *Event, ci ssa.CallInstruction, kind string
 			ev.Args = args
 		}
 		return
+	}
+	// an ABSOLUTE key (or scan prefix) used on a prefix store: the store prepends its prefix
+	// once more, and the access lands under a key nothing else reads or writes
+	{
+		var rel *Term
+		switch kind {
+		case "store.get", "store.has", "store.delete", "store.set":
+			if len(args) >= 1 {
+				rel = args[0]
+			}
+		case "store.iter", "store.riter":
+			if name == "KVStorePrefixIterator" || name == "KVStoreReversePrefixIterator" {
+				rel = ev.Args[1]
+			} else if len(args) >= 1 && args[0].Op != "nil" {
+				rel = args[0]
+			}
+		}
+		if rel != nil && rel.Op != "nil" {
+			pf := flattenKey(w.ts.expandKeyCallsF(pfx, 0, true))
+			rf := flattenKey(w.ts.expandKeyCallsF(rel, 0, true))
+			if len(pf) > 0 && len(rf) >= len(pf) {
+				same := true
+				for i := range pf {
+					if pf[i].LooseString() != rf[i].LooseString() || pf[i].Op == "param" {
+						same = false
+					}
+				}
+				if same {
+					ev.Note = "double-prefix"
+				}
+			}
+		}
 	}
 	switch kind {
 	case "store.get", "store.has", "store.delete":
